@@ -10,7 +10,7 @@ use serde_json::{json, Value};
 pub const DEF: PropDef = PropDef {
     id: "C03",
     level: "exploration",
-    rule: "complete enumeration of operator x operand cells over a 75-value universe U (every kind, every boundary the coercions inspect): 13 binary operators x U^2, unary x U, list operands x U_small^3, side-effecting operands (roll) for short-circuit and left-to-right order, compound assignment x U^2, build/knock x U x 1..3, every cell pushed through 5 statement positions, every operator applied to aliased operands (same variable, copies by assignment / argument passing / storing into an array) x U, (thorough) depth-2 nestings U^3 x 13^2, plus the same cells evaluated directly on rrss::exec::val::Val; expected value from an independent reference table; non-trivial = the reference defines the outcome and the program was executed and compared; distinct = distinct program text",
+    rule: "complete enumeration of operator x operand cells over a 75-value universe U (every kind, every boundary the coercions inspect): 13 binary operators x U^2, unary x U, list operands x U_small^3, side-effecting operands (roll) for short-circuit and left-to-right order, compound assignment x U^2, build/knock x U x 1..3, every cell pushed through 5 statement positions, every operator applied to aliased operands (same variable, copies by assignment / argument passing / storing into an array) x U, (thorough) depth-2 nestings U^3 x 13^2, plus the same cells evaluated directly on rrss::exec::val::Val; every result is also stored and observed through r plus 1 (its kind), 1 over r (the sign of a zero) and a copy; expected value from an independent reference table; non-trivial = the reference defines the outcome and the program was executed and compared; distinct = distinct program text",
     assumptions: &[
         "reference coercion tables transcribed from the property statement and anchored on the repository's own val unit tests (checked by ./check selftest)",
         "cells the properties leave open (spelling of non-finite numbers, padded numerals, non-integer repeat counts ...) are counted as skipped.<reason> and not judged",
@@ -38,6 +38,10 @@ pub const BINOPS: &[(&str, &str)] = &[
 /// operators that accept a list operand (symbolic comparisons do, worded ones do not)
 pub const LISTOPS: &[&str] = &["plus", "minus", "times", "over", "and", "or", "nor", ">", "<=", "isnt"];
 
+/// the result r observed beyond its text: its kind (r plus 1 is 6 for the number 5 and "51" for the string), the
+/// sign of a zero (1 over r), and that it survives a copy; the last line may stop the program
+pub const OBS_R: &str = "say r\nsay r plus 1\nput r into rr\nsay rr is r\nsay 1 over r\n";
+
 pub struct C03 {
     fams: Vec<(String, Space<String>)>,
 }
@@ -60,17 +64,17 @@ fn build(tier: Tier) -> Box<dyn Check> {
     let pairs = u.product(&u, |a, b| (a, b));
     fams.push((
         "binary".into(),
-        ops.product(&pairs, |o, (a, b)| format!("{}{}say x {} y\n", ctor(a, "x"), ctor(b, "y"), BINOPS[o].1)),
+        ops.product(&pairs, |o, (a, b)| format!("{}{}say x {} y\nput x {} y into r\n{}", ctor(a, "x"), ctor(b, "y"), BINOPS[o].1, BINOPS[o].1, OBS_R)),
     ));
     // 2. unary
     let unops: Space<&'static str> = Space::of(vec!["not x", "-x", "not not x", "- -x", "not -x"]);
-    fams.push(("unary".into(), unops.product(&u, |o, a| format!("{}say {}\n", ctor(a, "x"), o))));
+    fams.push(("unary".into(), unops.product(&u, |o, a| format!("{}say {}\nput {} into r\n{}", ctor(a, "x"), o, o, OBS_R))));
     // 3. list operands over U_small^3
     let triples = us.product(&us, |a, b| (a, b)).product(&us, |(a, b), c| (a, b, c));
     let lops: Space<&'static str> = Space::of(LISTOPS.to_vec());
     fams.push((
         "list".into(),
-        lops.product(&triples, |o, (a, b, c)| format!("{}{}{}say x {} y, z\n", ctor(a, "x"), ctor(b, "y"), ctor(c, "z"), o)),
+        lops.product(&triples, |o, (a, b, c)| format!("{}{}{}say x {} y, z\nput x {} y, z into r\n{}", ctor(a, "x"), ctor(b, "y"), ctor(c, "z"), o, o, OBS_R)),
     ));
     // 4. side-effecting operands: the queue q shows how many operands were evaluated, in which order
     let qops: Space<&'static str> = Space::of(vec!["and", "or", "nor", "plus", "minus", "times", "over", "isnt", ">", "<"]);
@@ -91,11 +95,11 @@ fn build(tier: Tier) -> Box<dyn Check> {
     let cops: Space<&'static str> = Space::of(vec!["plus", "with", "minus", "times", "over", "+", "-", "*", "/"]);
     fams.push((
         "compound".into(),
-        cops.product(&pairs, |o, (a, b)| format!("{}{}let x be {} y\nsay x\nsay y\n", ctor(a, "x"), ctor(b, "y"), o)),
+        cops.product(&pairs, |o, (a, b)| format!("{}{}let x be {} y\nsay x\nsay y\nput x into r\n{}", ctor(a, "x"), ctor(b, "y"), o, OBS_R)),
     ));
     fams.push((
         "compound-list".into(),
-        cops.product(&triples, |o, (a, b, c)| format!("{}{}{}let x be {} y, z\nsay x\n", ctor(a, "x"), ctor(b, "y"), ctor(c, "z"), o)),
+        cops.product(&triples, |o, (a, b, c)| format!("{}{}{}let x be {} y, z\nsay x\nput x into r\n{}", ctor(a, "x"), ctor(b, "y"), ctor(c, "z"), o, OBS_R)),
     ));
     // 6. build / knock
     let amounts: Space<&'static str> = Space::of(vec![
@@ -106,7 +110,7 @@ fn build(tier: Tier) -> Box<dyn Check> {
         "knock x down down",
         "knock x down, down, down",
     ]);
-    fams.push(("build-knock".into(), amounts.product(&u, |s, a| format!("{}{}\nsay x\n", ctor(a, "x"), s))));
+    fams.push(("build-knock".into(), amounts.product(&u, |s, a| format!("{}{}\nsay x\nput x into r\n{}", ctor(a, "x"), s, OBS_R))));
     // 7. statement positions
     let positions: Space<&'static str> = Space::of(vec![
         "put # into w\nsay w\n",
